@@ -1,8 +1,49 @@
-(* Executable checker for C11: the two hand-written map deserializers against the model, and
-   format round trips whose verdict is computed by the harness. *)
+(* Executable checker for C11: the two hand-written map deserializers against the model, format round trips
+   whose verdict is computed by the harness, and the OwnedValue conversions (Vm::insert_value followed by
+   OwnedValue::try_from) against the model Owned.v. *)
 From Cao Require Export CheckUtil Bits F32Load Consts ProbeDefs HashMap HashMapConsts HandleTable
      HandleTableConsts Serde.
+From Cao Require Vm VmFloat Owned.
 Local Open Scope N_scope.
+
+(* ---- OwnedValue terms as the harness prints them ---- *)
+Definition owned := Owned.owned.
+Definition onil : owned := Owned.ONil.
+Definition oint (z : Z) : owned := Owned.OInt z.
+Definition oreal (bits : N) : owned := Owned.OReal bits.
+Definition ostr (s : list N) : owned := Owned.OStr s.
+Definition otable (l : list (owned * owned)) : owned := Owned.OTable l.
+
+Definition is_nan64 (x : N) : bool := match VmFloat.fl_cmp x x with None => true | Some _ => false end.
+
+(* structural equality; reals by bit pattern, with [nan_eq] any two NaNs are alike (a format may change the
+   payload) *)
+Fixpoint owned_eqb (nan_eq : bool) (a b : owned) : bool :=
+  match a, b with
+  | Owned.ONil, Owned.ONil => true
+  | Owned.OInt x, Owned.OInt y => Z.eqb x y
+  | Owned.OReal x, Owned.OReal y => N.eqb x y || (nan_eq && is_nan64 x && is_nan64 y)
+  | Owned.OStr s, Owned.OStr t => list_eqb N.eqb s t
+  | Owned.OTable l, Owned.OTable m =>
+      (fix go (l m : list (Owned.owned * Owned.owned)) {struct l} : bool :=
+         match l, m with
+         | [], [] => true
+         | (k, v) :: l', (k2, v2) :: m' => owned_eqb nan_eq k k2 && owned_eqb nan_eq v v2 && go l' m'
+         | _, _ => false
+         end) l m
+  | _, _ => false
+  end.
+
+(* the model's prediction of try_from(insert_value(o)) in a fresh VM; None = the model does not answer a value *)
+Definition model_roundtrip (o : owned) : option owned :=
+  match Owned.insert_owned VmFloat.flocq_ops [] o with
+  | Owned.IOk h v =>
+      match Owned.owned_of VmFloat.flocq_ops 64 h v with
+      | Owned.CvOk r => Some r
+      | _ => None
+      end
+  | _ => None
+  end.
 
 (* CaoHashMap<i64, i64>: keys hashed by the FNV model *)
 Definition hm11_de (hint : option nat) (l : list (Z * Z)) :=
@@ -23,7 +64,11 @@ Inductive c11case :=
 | HmRt (hint : option nat) (ser : list (Z * Z)) (dec : list (Z * Z)) (cap : nat)
 | HtRt (hint : option nat) (ser : list (N * Z)) (dec : list (N * Z)) (cap : nat)
 (* format round trip judged by the harness: ok?, known-finding class (0 = none) *)
-| RtCase (kind : N) (ok : bool) (known : N).
+| RtCase (kind : N) (ok : bool) (known : N)
+(* o: an OwnedValue; direct = try_from(insert_value(o)) in one VM; back = the same value after a format round
+   trip of [direct] and insert_value + try_from in a second VM (None = the format failed); known = the
+   known-finding class of a format failure (0 = none) *)
+| OwRt (o direct : owned) (back : option owned) (known : N).
 
 Definition check1 (c : c11case) : list N :=
   match c with
@@ -42,6 +87,16 @@ Definition check1 (c : c11case) : list N :=
       (if Nat.eqb (length ser) (length dec)
           && forallb (fun e => opt_eqb Z.eqb (nlook dec (fst e)) (Some (snd e))) ser then [] else [2])
   | RtCase _ ok known => if ok then [] else if N.eqb known 0 then [2] else [known]
+  | OwRt o direct back known =>
+      (* model: insert_owned into the empty heap, then owned_of *)
+      (if opt_eqb (owned_eqb false) (model_roundtrip o) (Some direct) then [] else [1]) ++
+      (* specification: an owned value of the round-trip class comes back bit for bit ... *)
+      (if Owned.owned_ok VmFloat.flocq_ops o then (if owned_eqb false o direct then [] else [2]) else []) ++
+      (* ... and what try_from answered survives the format and the second VM *)
+      (match back with
+       | Some b => if owned_eqb true direct b then [] else if N.eqb known 0 then [2] else [known]
+       | None => if N.eqb known 0 then [2] else [known]
+       end)
   end.
 
 Definition check_all := CheckUtil.check_all check1.
